@@ -529,6 +529,52 @@ func init() {
 		}
 		return nil
 	})
+	// sync/atomic on integers: the engine is single-threaded, so these are plain reads and
+	// writes; like stores under a mutex they are synchronised and not counted as shared writes
+	for _, ty := range []string{"Int32", "Int64", "Uint32", "Uint64", "Uintptr"} {
+		ty := ty
+		reg("sync/atomic.Load"+ty, func(ip *Interp, fr *frame, args []Value) Value { return ip.load(args[0]) })
+		reg("sync/atomic.Store"+ty, func(ip *Interp, fr *frame, args []Value) Value {
+			p := args[0].(*Value)
+			if p == nil {
+				ip.throw("invalid memory address or nil pointer dereference")
+			}
+			ip.syncWrites++
+			*p = args[1]
+			return nil
+		})
+		reg("sync/atomic.Add"+ty, func(ip *Interp, fr *frame, args []Value) Value {
+			p := args[0].(*Value)
+			if p == nil {
+				ip.throw("invalid memory address or nil pointer dereference")
+			}
+			ip.syncWrites++
+			*p = ip.ts.Bin(OpAdd, asTerm(*p), asTerm(args[1]))
+			return *p
+		})
+		reg("sync/atomic.Swap"+ty, func(ip *Interp, fr *frame, args []Value) Value {
+			p := args[0].(*Value)
+			if p == nil {
+				ip.throw("invalid memory address or nil pointer dereference")
+			}
+			ip.syncWrites++
+			old := *p
+			*p = args[1]
+			return old
+		})
+		reg("sync/atomic.CompareAndSwap"+ty, func(ip *Interp, fr *frame, args []Value) Value {
+			p := args[0].(*Value)
+			if p == nil {
+				ip.throw("invalid memory address or nil pointer dereference")
+			}
+			if ip.ex.Branch(ip.ts.Eq(asTerm(*p), asTerm(args[1]))) {
+				ip.syncWrites++
+				*p = args[2]
+				return tTrue
+			}
+			return tFalse
+		})
+	}
 	// sync.Pool: Get may hand back any object that was Put before, or a new one: both are
 	// explored (a pooled object is owned by one caller at a time, so the write-set monitor does
 	// not treat it as shared memory; state it carries from one call into the next is visible)
